@@ -13,7 +13,12 @@ Singles == Curves({K2, U2}, {2, 3}, BOOLEAN, Seed) \cup Surfaces({L3}, {K2}, {3}
 \* containers: sequences of 2..3 curves of the same spatial dimension with different start points
 Conts == {<<MkShape(<<2>>, <<K2[2]>>, dim, r1, Seed), MkShape(<<2>>, <<K2[2]>>, dim, r2, Seed + 1)>> : dim \in {2, 3}, r1 \in BOOLEAN, r2 \in BOOLEAN}
          \cup {<<MkShape(<<2>>, <<K2[2]>>, 3, TRUE, Seed), MkShape(<<1>>, <<L3[2]>>, 3, FALSE, Seed + 2), MkShape(<<2>>, <<U2[2]>>, 3, FALSE, Seed + 3)>>}
-Init == c \in {<<s>> : s \in Singles} \cup Conts /\ out = [op |-> "init"]
+\* containers whose elements are images of each other under one of the maps applied below (an "orbit"): after the map an element
+\* coincides with what a neighbour was before it
+V3 == [k \in 1..3 |-> RI(k - 2)]
+OrbitConts == UNION {{<<s, Translate(s, V3), Translate(Translate(s, V3), V3)>>, <<s, ScaleBy(s, RI(2))>>, <<ScaleBy(s, RI(2)), s>>}
+                      : s \in {MkShape(<<2>>, <<K2[2]>>, 3, r, Seed) : r \in BOOLEAN}}
+Init == c \in {<<s>> : s \in Singles} \cup Conts \cup OrbitConts /\ out = [op |-> "init"]
 
 Dim == LET s == c[1] IN CDim(s) - (IF s.rat THEN 1 ELSE 0)
 Vecs == {[k \in 1..Dim |-> RI(k - 2)], [k \in 1..Dim |-> R(2 * k - 1, 2)], [k \in 1..Dim |-> Zero]}
